@@ -254,11 +254,12 @@ def native_load_check(img, timeout=5, t=None, cs=None):
     return None
 
 def footer_image(footer):
-    """a minimal valid version-2 image (one type, no transitions) followed by the given footer"""
+    """a small valid version-2 image (one type, one transition in 1990, so that rule years generated from a valid footer reach
+    the present: the zero-transition shape would run into the recorded seam finding of C01) followed by the given footer"""
     import struct
     def block(v2):
-        h = b"TZif" + b"2" + b"\0" * 15 + struct.pack(">6l", 0, 0, 0, 0, 1, 4)
-        return h + struct.pack(">lBB", 0, 0, 0) + b"UTC\0"
+        h = b"TZif" + b"2" + b"\0" * 15 + struct.pack(">6l", 0, 0, 0, 1, 1, 4)
+        return h + struct.pack(">q" if v2 else ">l", 646790400) + b"\0" + struct.pack(">lBB", 0, 0, 0) + b"UTC\0"
     return block(False) + block(True) + b"\n" + footer + b"\n"
 
 _exe = {}
@@ -298,7 +299,7 @@ def run(tier):
     # overflow obligations of each sub-parser with its lower levels replaced by their contracts)
     from . import c16
     FL = 12 if tier == "quick" else 16
-    jobs += [("footer:ParsePosixSpec unit H%d,L=%d" % (hh, FL), c16.job_unit, {"H": hh, "L": FL, "zone": zz}) for hh, zz in ((1, None), (2, None), (3, 0), (3, 1), (4, None), (5, None))]
+    jobs += [("footer:ParsePosixSpec unit H%d,L=%d%s" % (hh, FL, "" if zz is None else ",zone=%d" % zz), c16.job_unit, {"H": hh, "L": FL, "zone": zz}) for hh, zz in ((1, None), (2, None), (3, 0), (3, 1), (4, None), (5, None))]
     results = common.run_jobs(jobs)
     rep.add_jobs(results)
     rep.add_module("wrap/posix.cc", c16.module())
@@ -309,17 +310,20 @@ def run(tier):
             if r["name"].startswith("footer:"):
                 # embed the string (and completions of it) as the footer of a small valid version-2 image and load that natively
                 hit = None
-                bs0 = bytes(m.get("bytes", [])).split(b"\0")[0]
-                for t in [bs0] + [bs0[:i] for i in range(len(bs0) - 1, -1, -1)]:
-                    for pre in (b"", b"AAA0BBB", b"AAA0BBB,J1", b"AAA", b"AAA0BBB0"):
-                        for post in (b"", b",J1", b",J1,J1"):
-                            img = footer_image(pre + t + post)
-                            w = native_load_check(img)
-                            if w: hit = (img, w); break
+                for cb in c16.candidates(r["name"], fobj, rep):
+                    bs0 = bytes(cb).split(b"\0")[0]
+                    for t in [bs0] + [bs0[:i] for i in range(len(bs0) - 1, -1, -1)]:
+                        for pre in (b"", b"AAA0BBB", b"AAA0BBB,J1", b"AAA", b"AAA0BBB0"):
+                            for post in (b"", b",J1", b",J1,J1"):
+                                if b"\n" in pre + t + post: continue          # a newline ends the footer
+                                img = footer_image(pre + t + post)
+                                w = native_load_check(img)
+                                if w: hit = (img, w); break
+                            if hit: break
                         if hit: break
                     if hit: break
                 if hit: rep.violation("footer:%s" % fobj["desc"][:60], hit[1] + "  [%s: %s]" % (r["name"], fobj["desc"]), {"image": list(hit[0])})
-                else: rep.spurious.append({"job": r["name"], "obligation": fobj["desc"], "bytes": list(bs0)})
+                else: rep.spurious.append({"job": r["name"], "obligation": fobj["desc"], "bytes": list(m.get("bytes", []))})
                 continue
             kw = j[2]
             total = file_total(**kw)
